@@ -36,17 +36,20 @@ CHECKS = {
  "C03": dict(
     text="C03_memmem_find_partial / C03_finder_partial: memmem::find and Finder::find (any prefilter setting, EVERY ranker function, every CPU "
          "detection outcome / architecture, every prefilter state) return Ok (find_spec x h) = the leftmost occurrence, for every haystack and every "
-         "needle that either does not reach Two-Way (<= 1 byte; <= 32 bytes on vector targets: unconditional, C03_memmem_find_short_needles) or "
-         "carries the decidable certificate tw_cert_fwd_of (Tier 1). Built from block theorems: Rabin-Karp, packed pair, prefilter soundness "
-         "(vector, portable, find_simple), Two-Way loops under the certificate, SWAR/vector memchr. The full statement is kept as C03_memmem_find_full.",
-    design_ref="DESIGN.md section 6 (C03)", note=_MEM_NOTE + " Tier 1: certificate evaluated for every needle of each run and swept in Coq over all ternary needles up to length 7.",
-    technique="Coq proof (partial: Two-Way under a decidable per-needle certificate): composition of block theorems through the modelled meta searcher + differential correspondence incl. strategy labels and step traces",
+         "needle. C03_memmem_find / C03_finder are UNCONDITIONAL: the Two-Way loops are proved under a decidable certificate (Tier 1) and the "
+         "certificate is proved for every non-empty needle (Tier 2: the modelled maximal-suffix computation returns the maximal suffix and its "
+         "period, MaxSuffixProofs.v; critical factorisation theorem, CritFact.v). Built from block theorems: Rabin-Karp, packed pair, prefilter "
+         "soundness (vector, portable, find_simple), Two-Way, SWAR/vector memchr.",
+    design_ref="DESIGN.md section 6 (C03)", note=_MEM_NOTE,
+    technique="Coq proof: composition of block theorems through the modelled meta searcher; Two-Way via loop invariants + critical factorisation theorem + correctness of the maximal-suffix algorithm; differential correspondence incl. strategy labels and step traces",
  ),
  "C04": dict(
     text="C04_memmem_rfind_partial / C04_finder_rev_partial: memmem::rfind and FinderRev::rfind return Ok (rfind_spec x h) = the rightmost occurrence "
-         "(empty needle: haystack.len()), via reverse Rabin-Karp, memrchr and the reverse Two-Way loops under the certificate tw_cert_rev_of (Tier 1).",
-    design_ref="DESIGN.md section 6 (C04)", note=_MEM_NOTE + " Tier 1 as C03.",
-    technique="Coq proof (partial: Two-Way under a decidable per-needle certificate) + differential correspondence",
+         "(empty needle: haystack.len()), via reverse Rabin-Karp, memrchr and the reverse Two-Way loops. C04_memmem_rfind / C04_finder_rev are "
+         "UNCONDITIONAL: the reverse preprocessing is proved to be the mirror image of the forward preprocessing of the reversed needle "
+         "(TwoWayTier2Rev.v), which transfers the critical-factorisation result.",
+    design_ref="DESIGN.md section 6 (C04)", note=_MEM_NOTE,
+    technique="Coq proof: reverse loop invariants + mirror-image simulation of the reverse preprocessing onto the forward one + differential correspondence",
  ),
  "C05": dict(
     text="Props/C05.v: for every modelled entry point and ALL inputs and placements, every load of the trace lies inside the haystack resp. needle "
@@ -75,12 +78,12 @@ CHECKS = {
     technique="Coq proof: counting invariant acc = count_p (firstn cur h) + trace-level differential correspondence",
  ),
  "C08": dict(
-    text="C08_find_iter_partial: for every finder configuration, ranker, CPU, needle, haystack and number of calls k, the k outputs of find_iter are the "
+    text="C08_find_iter (unconditional): for every finder configuration, ranker, CPU, needle, haystack and number of calls k, the k outputs of find_iter are the "
          "greedy sequence (leftmost occurrence, resume needle.len().max(1) further) followed by None forever, and the size_hint taken before "
          "each call brackets the number of matches still to come (upper bound rest/needle.len() proved from the spacing of greedy matches); "
-         "C08_rfind_iter_partial: the mirror sequence; C08_empty_needle / C08_rev_empty_needle: every offset 0..=len ascending resp. descending. "
+         "C08_rfind_iter: the mirror sequence; C08_empty_needle / C08_rev_empty_needle: every offset 0..=len ascending resp. descending. "
          "The iterator carries its prefilter state across calls: the proof uses C03 for EVERY state.",
-    design_ref="DESIGN.md section 6 (C08)", note=_MEM_NOTE + " Tier 1 as C03/C04.",
+    design_ref="DESIGN.md section 6 (C08)", note=_MEM_NOTE + "",
     technique="Coq proof: induction over the number of calls on the modelled FindIter/FindRevIter state machines, relative to C03/C04 + differential correspondence of iteration histories",
  ),
  "C09": dict(
@@ -93,11 +96,11 @@ CHECKS = {
     technique="Coq proof: corollary of the per-backend specification theorems for every backend/arch value + multi-build, forced-dispatch differential run",
  ),
  "C10": dict(
-    text="C10_config_and_ranker_irrelevant_partial: for any two prefilter settings, any two ranker FUNCTIONS (quantified over all N -> N) and any "
-         "start addresses the finder results coincide; C10_prefilter_state_irrelevant_partial: for any two prefilter states (effective, inert, "
+    text="C10_config_and_ranker_irrelevant (unconditional): for any two prefilter settings, any two ranker FUNCTIONS (quantified over all N -> N) and any "
+         "start addresses the finder results coincide; C10_prefilter_state_irrelevant: for any two prefilter states (effective, inert, "
          "saturated) Searcher::find gives the same answer, equal to find_spec. Corollaries of C03 (which quantifies over configuration, ranker and "
          "state), with C19 (every ranker yields a valid pair) and C11 (every valid pair gives a sound prefilter) inside.",
-    design_ref="DESIGN.md section 6 (C10)", note=_MEM_NOTE + " Tier 1 as C03.",
+    design_ref="DESIGN.md section 6 (C10)", note=_MEM_NOTE + "",
     technique="Coq proof: corollary of the C03 theorem, universally quantified over ranker functions, configurations and prefilter states + configuration-grid differential run",
  ),
  "C11": dict(
@@ -112,8 +115,9 @@ CHECKS = {
     text="Block theorems, each '= Ok (find_spec/rfind_spec ...)' for every needle and haystack of the block's domain: Rabin-Karp forward/reverse "
          "(rolling hash = hash of the window, algebra mod 2^32, valid also when 2^(n-1) wraps to 0), Shift-Or (state invariant bit j = 0 iff "
          "x[0..j) is a suffix of the bytes read; constructor None exactly above 15 bytes), packed-pair find on every ISA (panic exactly below "
-         "min_haystack_len). Two-Way forward/reverse: proved for every haystack under a decidable needle certificate that is evaluated for "
-         "every needle the check uses (Tier 1).",
+         "min_haystack_len). Two-Way forward/reverse (C12_twoway_find / C12_twoway_rfind): every non-empty needle, every haystack "
+         "(loop invariants under a decidable certificate + the certificate for every needle: maximal-suffix algorithm and critical "
+         "factorisation theorem).",
     design_ref="DESIGN.md section 6 (C12)", note=_MEM_NOTE,
     technique="Coq proofs: loop invariants (rolling-hash algebra, bit-level Shift-Or state, chunk scan) + differential correspondence (results, load/step traces)",
  ),
@@ -127,12 +131,12 @@ CHECKS = {
     technique="Coq proof: every result theorem has the form '= Ok ...' over a model with explicit panics; checked-arithmetic obligation on the prefilter state + debug/overflow-check build under catch_unwind",
  ),
  "C16": dict(
-    text="C16_reuse_partial / C16_reuse_rev_partial: for a finder built from x, EVERY later search over ANY list of haystacks, from ANY prefilter "
+    text="C16_reuse / C16_reuse_rev (unconditional): for a finder built from x, EVERY later search over ANY list of haystacks, from ANY prefilter "
          "state, returns find_spec x h (rfind_spec): the answer depends on the needle and that haystack only; C16_needle: needle() is the "
          "construction needle; C16_iter_resume: an iterator continued from any of its states (what clone/into_owned copy) produces exactly the "
          "remaining outputs. The theorems are about immutable model values; the copying behaviour of clone/as_ref/into_owned (incl. after the "
          "original needle buffer is overwritten) is decided by running the same operation histories on the real crate.",
-    design_ref="DESIGN.md section 6 (C16)", note=_MEM_NOTE + " Tier 1 as C03/C04. Clone derives, CowBytes and lifetimes are not modelled.",
+    design_ref="DESIGN.md section 6 (C16)", note=_MEM_NOTE + " Clone derives, CowBytes and lifetimes are not modelled.",
     technique="Coq proof: results of reuse are the specification of needle and haystack for every prefilter state; iterator run-splitting + differential correspondence on operation histories with buffer scribbling",
  ),
  "C17": dict(
